@@ -941,10 +941,7 @@ namespace avel {
 
     [[nodiscard]]
     AVEL_FINL mask8x64f signbit(vec8x64f arg) {
-        #if defined(AVEL_AVX512DQ)
-        return mask8x64f{_mm512_fpclass_pd_mask(decay(arg), 0x40 | 0x04 | 0x10)};
-
-        #elif defined(AVEL_AVX512F)
+        #if defined(AVEL_AVX512F)
         return mask8x64f{_mm512_cmplt_epi64_mask(_mm512_castpd_si512(decay(arg)), _mm512_setzero_si512())};
         #endif
     }
